@@ -37,6 +37,20 @@ def operatorSaidYes : List String → Bool
 /-- bytes of the PIN-carrying `SEND_PIN` messages `80 41 i b`, in index order as sent -/
 def sentPinBytes (as : List Bytes) : Bytes := (as.filter (cmdOf · == 0x41)).map (·.getD 3 0)
 
+/-- the six documented paths, as `pubkeys` lists them -/
+def docPathStrs : List String :=
+  ["m/44'/0'/0'/0/0", "m/44'/137'/0'/0/0", "m/44'/137'/1'/0/0", "m/44'/1'/0'/0/0", "m/44'/1'/1'/0/0",
+   "m/44'/1'/2'/0/0"]
+
+/-- "the public keys written to disk are the device's keys for the six documented paths": after a run
+    of `pubkeys` against a genuine device (whatever faults the link suffers) each output file is
+    either untouched (`none`) or lists the six documented paths, and a run that reports success with
+    an output file has written both.  (That the values are the device's keys is the model's
+    `pubkeys` output, compared by the correspondence.) -/
+def filesOk (hasOutput ok : Bool) (txt json : Option (List String)) : Bool :=
+  (txt == none || txt == some docPathStrs) && (json == none || json == some docPathStrs) &&
+  (!(ok && hasOutput) || (txt == some docPathStrs && json == some docPathStrs))
+
 structure Obs where
   events : List Ev
   ok : Bool
